@@ -262,7 +262,7 @@ func (w *world) classify(sc *Sched) {
 		w.out.NonTrivial = p["replica-pair-compared"] > 0 && p["li-mixed-log"] > 0
 	case "C04":
 		w.out.NonTrivial = p["image-mid-operation"] > 0
-	case "C07":
+	case "C07", "C05":
 		w.out.NonTrivial = p["writes-during-snapshot-stream"] > 0
 	case "C08":
 		w.out.NonTrivial = p["install-complete"] > 0 && (p["writes-between-prepare-and-save-end"] > 0 || p["cross-format-install"] > 0) || p["recover-stopped"] > 0
